@@ -31,7 +31,10 @@ def variants(pid):
         # my own single-point mutations, kept only to prove that a rule without an independent seed has teeth
         for o in json.load(open(own)):
             if pid in o["properties"]:
-                out.append({"name": "own:" + o["file"][:-5], "patch": os.path.join(VERIF, "selftest", "own", o["file"]), "reverse": False, "rules": o["rules"], "what": o["what"]})
+                v = {"name": "own:" + o["file"][:-5], "patch": os.path.join(VERIF, "selftest", "own", o["file"]), "reverse": False, "rules": o["rules"], "what": o["what"]}
+                if o.get("silent"):
+                    v["silent"] = True      # a behaviour-preserving variant of my own: the check must stay silent
+                out.append(v)
     sdir = os.path.join(VERIF, "seeded")
     for d in sorted(os.listdir(sdir)) if os.path.isdir(sdir) else []:
         mp = os.path.join(sdir, d, "meta.json")
